@@ -120,9 +120,38 @@ template <class M> static void check_mirror(const M &m, const Scan &s) {
         }
     }
 }
+// a face accepted WITH topology check must be a closed loop: submit connected halfedge paths whose last->first
+// junction is open most of the time (and closed sometimes); whatever is accepted is judged by check_mirror
+template <class K> static void probe_checked_face(Engine<K> &e) {
+    Ctx &ctx = e.ctx; Rng &rng = e.rng;
+    std::vector<int> lhe; for (int x : e.live_e()) { lhe.push_back(2 * x); lhe.push_back(2 * x + 1); }
+    if (lhe.empty()) return;
+    int want = KernelName<K>::kind == 1 ? 3 : KernelName<K>::kind == 2 ? 4 : 1 + (int)rng.below(5);
+    std::vector<int> path{rng.pick(lhe)}; std::set<int> used{path[0] >> 1};
+    while ((int)path.size() < want) {
+        std::vector<int> nx; for (int h : e.s.out_he[e.s.to(path.back())]) if (!used.count(h >> 1)) nx.push_back(h);
+        if (nx.empty()) break;
+        // prefer a closing halfedge for the last position now and then
+        int pick = rng.pick(nx);
+        if ((int)path.size() == want - 1 && rng.chance(1, 3)) for (int h : nx) if (e.s.to(h) == e.s.from(path[0])) pick = h;
+        path.push_back(pick); used.insert(pick >> 1);
+    }
+    if ((int)path.size() != want) return;
+    bool closed = e.s.to(path.back()) == e.s.from(path[0]);
+    int nf0 = e.s.nf;
+    std::vector<HalfEdgeHandle> hh; for (int h : path) hh.emplace_back(h);
+    ctx.op("probe add_face(path=" + ivec(path) + (closed ? ",closed" : ",open") + ",check=true)");
+    auto f = e.mesh.add_face(hh, true);
+    ctx.cnt.add(f.is_valid() ? "mirror.checked-probes.accepted" : "mirror.checked-probes.rejected");
+    ctx.cnt.add(closed ? "mirror.checked-probes.closed" : "mirror.checked-probes.open");
+    if (f.is_valid()) { e.adopt_new(e.s.nv, e.s.ne, nf0, e.s.nc); }
+    e.rescan();
+    if (f.is_valid() && !closed) VF_FAIL("oracle:mirror.checked-face-not-closed", "add_face(" << ivec(path) << ", check=true) accepted a halfedge path that is not a closed loop (the last halfedge ends at " << e.s.to(path.back()) << ", the first starts at " << e.s.from(path[0]) << ")");
+}
 template <class K> static void run_mirror(Ctx &ctx, EngCfg g) {
     Engine<K> e(ctx, g);
-    e.after_step = [&] { check_mirror(e.mesh, e.s); };
+    int n = 0;
+    e.after_step = [&] { check_mirror(e.mesh, e.s); if (++n % 3 == 0) { probe_checked_face(e); check_mirror(e.mesh, e.s); } };
     e.run();
 }
 static CaseFn mk_c08mesh(const Args &a) {
